@@ -22,11 +22,12 @@ RX_END = re.compile(r"LexerInternal<'_>>::end(_to_boundary)?$")
 def lexer_fields(ex, lexref):
     """(token_start, token_end, is_prefix) of the Lexer behind a reference, by field *name*"""
     v = ex.read_lv(('cell', lexref.cell, lexref.path))
-    names = ex._lexer_field_idx.get(v.ty)
+    key = (id(ex.p), v.ty)
+    names = ex._lexer_field_idx.get(key)
     if names is None:
         kd = ex.p.kind(v.ty)
         names = {f['name']: i for i, f in enumerate(kd['variants'][0]['fields'])}
-        ex._lexer_field_idx[v.ty] = names
+        ex._lexer_field_idx[key] = names
     return v.fields[names['token_start']], v.fields[names['token_end']], v.fields[names['is_prefix']]
 
 
@@ -55,16 +56,30 @@ def install_hooks(ex, callback_rx=None):
             for a in args:
                 if isinstance(a, Ref):
                     lexref = a
-            if lexref is None and args and isinstance(args[0], Agg):
-                pass
             s = e = None
             if lexref is not None:
                 try:
                     s, e, _ = lexer_fields(ex, lexref)
                 except Exception:
                     pass
-            ex.events.append(('callback', f['name'], s, e))
+            name = f['name']
+            rec = ['cb', name, s, e, None, None]
+            ex.events.append(rec)
+            ex.in_user_cb += 1
+
+            def post(ret):
+                ex.in_user_cb -= 1
+                rec[4] = ret
+                if lexref is not None:
+                    try:
+                        rec[5] = lexer_fields(ex, lexref)[1]
+                    except Exception:
+                        pass
+            return post
         ex.trace_hooks.append((callback_rx, on_cb))
+
+
+RX_CORPUS_CB = re.compile(r'^corpus::\w+::cb_\w+$')
 
 
 # ----------------------------------------------------------------------------- UTF-8
@@ -135,6 +150,135 @@ def conc(v):
     raise EngineError(f'span offset is not concrete on this path: {v}')
 
 
+def canon_v(v):
+    from .joint import canon
+    return canon(v)
+
+
+class CallbackSpec:
+    """documented meaning of callback return values (book/src/callbacks.md) for the corpus' callbacks"""
+
+    def __init__(self, ex, d, tables):
+        self.ex, self.d, self.tables = ex, d, tables
+        self.by_fn = {}
+        for i, tb in enumerate(tables):
+            if tb.cb_fn:
+                self.by_fn.setdefault(tb.cb_fn, []).append(i)
+        self.error_cb = d.error_cb
+        self.has_error_cb = bool(d.error_cb)
+
+    @staticmethod
+    def short(name):
+        return name.split('::')[-1]
+
+    def is_pattern_cb(self, name):
+        return self.short(name) in self.by_fn
+
+    def is_error_cb(self, name):
+        return self.error_cb is not None and self.short(name) == self.error_cb
+
+    def patterns_of(self, name):
+        return self.by_fn[self.short(name)]
+
+    def plain(self, outcome):
+        return [i for i, tb in enumerate(self.tables) if tb.outcome == outcome and not tb.cb_fn]
+
+    def plain_fields(self, vi, ss, ee):
+        v = self.d.variants[vi]
+        if v.field is None:
+            return []
+        if v.field.replace(' ', '') in ("&'sstr", "&'s[u8]"):
+            return [('src', str(ss), str(ee - ss))]
+        return None
+
+    def show(self, v):
+        return repr(canon_v(v))[:80]
+
+    def default_error(self, errcbs):
+        """canonical form of the error a default error must carry"""
+        if self.has_error_cb:
+            if len(errcbs) >= 1 and errcbs[-1][4] is not None:
+                return canon_v(errcbs[-1][4])
+            return None
+        if self.d.error is None:
+            return ('agg', None, ())
+        if self.d.error == 'MyErr':
+            return ('agg', 0, ())
+        return None
+
+    def into_error(self, e):
+        """MyErr::from(e) for the corpus' error type"""
+        c = canon_v(e)
+        if self.d.error == 'MyErr':
+            if c == ('agg', None, ()):
+                return ('agg', 2, ())
+            return ('agg', 1, (c,))
+        return None
+
+    def expected(self, cb, idxs, errcbs):
+        """documented outcome for the recorded return value: ('ok', variant, fields) | ('err', value) | ('skip',)"""
+        tb = self.tables[idxs[0]]
+        kind = tb.cb_kind
+        ret = cb[4]
+        vi = tb.outcome[1] if tb.outcome[0] == 'variant' else None
+        deferr = ('err', self.default_error(errcbs))
+        c = canon_v(ret)
+
+        def variant_of(x):       # Option/Result/Filter... payloads
+            return x[1], x[2]
+        if kind == 'unit':
+            return ('ok', vi, ())
+        if kind == 'bool':
+            if not isinstance(ret, bool):
+                return None
+            return ('ok', vi, ()) if ret else deferr
+        if kind == 'value':
+            return ('ok', vi, (c,))
+        if kind in ('option',):
+            v, f = variant_of(c)
+            return ('ok', vi, f) if v == 1 else deferr
+        if kind in ('result', 'result_unit', 'result_skip', 'skip_result', 'result_token'):
+            v, f = variant_of(c)
+            if v == 1:
+                return ('err', self.into_error(ret.fields[0]))
+            if kind == 'result':
+                return ('ok', vi, f)
+            if kind == 'result_unit':
+                return ('ok', vi, ())
+            if kind == 'result_token':
+                return ('ok', f[0][1], f[0][2])
+            return ('skip',)
+        if kind in ('skip', 'skip_unit'):
+            return ('skip',)
+        if kind == 'filter':
+            v, f = variant_of(c)
+            return ('ok', vi, f) if v == 0 else ('skip',)
+        if kind == 'filter_token':
+            v, f = variant_of(c)
+            return ('ok', f[0][1], f[0][2]) if v == 0 else ('skip',)
+        if kind == 'filter_result':
+            v, f = variant_of(c)
+            if v == 0:
+                return ('ok', vi, f)
+            if v == 1:
+                return ('skip',)
+            return ('err', self.into_error(ret.fields[0]))
+        if kind == 'token':
+            return ('ok', c[1], c[2])
+        return None
+
+    def actual(self, kind, item, ss, ee):
+        if kind == 'skip':
+            return ('skip',)
+        if item is None:
+            return (kind,)
+        if item[0] == 'ok':
+            return ('ok', item[1], tuple(canon_v(x) for x in item[2]))
+        if item[0] == 'err':
+            return ('err', canon_v(item[1]))
+        return (item[0],)
+
+
 class StepResult:
     def __init__(self):
         self.leaves = 0
@@ -160,8 +304,9 @@ def explore_step(prog, d, tables, N, start, *, partial=False, props=None, is_rel
     ex = Exec(prog, N, debug_assertions=not is_release, time_budget=budget)
     if d.utf8:
         ex.base.append(as_b(valid_utf8(ex)))
-    install_hooks(ex)
+    install_hooks(ex, RX_CORPUS_CB)
     R = refmod.Reference(ex, tables)
+    cbspec = CallbackSpec(ex, d, tables)
     res = StepResult()
     mod = f'corpus::{d.id}::'
     is_str = d.utf8
@@ -217,19 +362,43 @@ def explore_step(prog, d, tables, N, start, *, partial=False, props=None, is_rel
             prove('C03', f'{kind} span {ss}..{ee} ends beyond the source', simp(z3.ULE(bvv(ee, U), ex.len)))
             pos = ee
         # ---- per-attempt reference obligations
-        for (t, evs, (kind, ss, ee)) in attempts:
-            if kind == 'skip':
+        for ai, (t, evs, (kind, ss, ee)) in enumerate(attempts):
+            cbs = [ev for ev in evs if ev[0] == 'cb' and cbspec.is_pattern_cb(ev[1])]
+            errcbs = [ev for ev in evs if ev[0] == 'cb' and cbspec.is_error_cb(ev[1])]
+            m = ee                      # end of the automaton's match (callbacks may bump beyond it)
+            if cbs:
+                if len(cbs) > 1:
+                    res.fail(ex, 'C13', f'{len(cbs)} pattern callbacks ran in one match attempt from {t}')
+                cb = cbs[0]
+                m = conc(cb[3])
+                if conc(cb[2]) != t:
+                    res.fail(ex, 'C13', f'callback {cbspec.short(cb[1])} saw span start {cb[2]}, the match starts at {t}')
+                idxs = cbspec.patterns_of(cb[1])
+                prove('C01', f'{kind} {ss}..{ee}: callback match {t}..{m} is not the longest match', R.longest_ok(t, m))
+                prove('C13', f'callback {cbspec.short(cb[1])} ran for {t}..{m} but its pattern is not the highest-priority '
+                             f'longest match', s_and(R.longest_ok(t, m), R.winner_in(t, m, idxs)))
+                exp = cbspec.expected(cb, idxs, errcbs)
+                got = cbspec.actual(kind, item if ai == len(attempts) - 1 else None, ss, ee)
+                if exp is not None and exp != got:
+                    res.fail(ex, 'C13', f'callback {cbspec.short(cb[1])} returned {cbspec.show(cb[4])} but the lexer produced '
+                                        f'{got}, documented: {exp}')
+                if kind != 'none' and conc(cb[5]) != ee:
+                    res.fail(ex, 'C13', f'item after callback ends at {ee} but the callback left the lexer at {cb[5]}')
+            elif kind == 'skip':
                 prove('C01', f'skip {ss}..{ee} is not the longest match from {t}', R.longest_ok(t, ee))
                 prove('C01', f'skip {ss}..{ee}: a skip pattern is not the highest-priority match',
-                      R.winner_ok(t, ee, ('skip',)))
+                      R.winner_in(t, ee, cbspec.plain(('skip',))))
             elif kind == 'ok':
                 prove('C01', f'token {ss}..{ee} is not the longest match from {t}', R.longest_ok(t, ee))
                 vi = item[1]
-                w = R.winner_ok(t, ee, ('variant', vi))
-                prove('C01', f'token {ss}..{ee}: variant #{vi} is not the highest-priority match', w)
+                prove('C01', f'token {ss}..{ee}: variant #{vi} is not the highest-priority match',
+                      R.winner_in(t, ee, cbspec.plain(('variant', vi))))
+                exp_fields = cbspec.plain_fields(vi, ss, ee)
+                if exp_fields is not None and [canon_v(x) for x in item[2]] != exp_fields:
+                    res.fail(ex, 'C13', f'value variant #{vi} without callback should hold the matched slice {ss}..{ee}, '
+                                        f'got {item[2]}')
             elif kind == 'err':
-                cb_err = 'cb_err' in d.tags
-                if not cb_err:
+                if True:
                     prove('C02', f'Err at {ss}..{ee} although some pattern matches a non-empty prefix',
                           R.no_match(t))
                     # end = boundary_up(max(dead_at, t+1))
@@ -245,6 +414,11 @@ def explore_step(prog, d, tables, N, start, *, partial=False, props=None, is_rel
                             bnd = (r == ee)
                         alts.append(s_and(dcond, bnd))
                     prove('C02', f'Err span {ss}..{ee} does not follow the span rule', s_or(*alts))
+                    experr = cbspec.default_error(errcbs)
+                    if experr is not None and canon_v(item[1]) != experr:
+                        res.fail(ex, 'C02', f'error value {item[1]} is not the documented default {experr}')
+                    if cbspec.has_error_cb and len(errcbs) != 1:
+                        res.fail(ex, 'C13', f'error callback ran {len(errcbs)} times for one default error')
             elif kind == 'none':
                 if not partial:
                     prove('C03', f'None returned at {t} before the end of input', simp(ex.len == bvv(t, U)))
